@@ -322,7 +322,7 @@ fn read_case(img: &[u8], valid_endlib_end: Option<usize>, truncated_at: Option<u
         let req_before = io.borrow().stats.get(K::BytesRequestedRead);
         let chunked = pol.chunk_max;
         fs.plan(INP, FilePlan { read: pol, ..Default::default() });
-        let r2 = guard(|| GdsLibrary::open(INP));
+        let r2 = guard(|| GdsLibrary::open(fs.sp(INP)));
         let calls = io.borrow().stats.get(K::ReadCalls) + io.borrow().stats.get(K::SeekCalls) - calls_before;
         let req = io.borrow().stats.get(K::BytesRequestedRead) - req_before;
         let faults = io.borrow().stats.faults_fired() - benign_faults_before;
